@@ -3,7 +3,7 @@
    the fate of iteration variables from Gen/EvalTables.v (regenerated from the source on every run). *)
 From Coq Require Import String List ZArith Bool Sorted.
 Import ListNotations.
-Require Import Verif.Eval.Value Verif.Eval.Interp Verif.Eval.Tables Verif.Eval.PureProps Verif.Eval.SemProps Verif.Eval.ExtProps Verif.Eval.TotalProps Verif.Gen.EvalTables.
+Require Import Verif.Eval.Value Verif.Eval.GoFuncs Verif.Eval.Interp Verif.Eval.Tables Verif.Eval.CallProps Verif.Eval.PureProps Verif.Eval.SemProps Verif.Eval.ExtProps Verif.Eval.TotalProps Verif.Gen.EvalTables.
 Local Open Scope string_scope.
 
 (* ---- purity ---- *)
@@ -239,3 +239,101 @@ Theorem C10_evaluate_view_total : forall vs name vw ts t,
     exists v sc', evaluate_view n vs name sc = Ok (v, sc') /\ vtyped v t = true.
 Proof. exact evaluate_view_total. Qed.
 Print Assumptions C10_evaluate_view_total.
+
+(* ---- call resolution (deepen round 3): evalCall looks a name up among the application's own views FIRST, then the
+        "."-builtins, then the native helper table GoFuncMap - in the statement order of the source as it is now ---- *)
+Theorem C10_call_order : call_order = [CallView; CallDot; CallGoFunc] /\ call_scope = CsFresh.
+Proof. exact (conj call_order_views_first call_scope_fresh). Qed.
+Print Assumptions C10_call_order.
+
+(* no hypothesis on the name: a view called "ToUpper", "Contains" or ".count" shadows the helper / builtin *)
+Theorem C10_call_resolves_to_view_first : forall ev vs sc fn args vw,
+  assoc String.eqb fn vs = Some vw -> eval_call ev vs sc fn args = view_call ev sc vw args.
+Proof. exact call_resolves_to_view_first. Qed.
+Print Assumptions C10_call_resolves_to_view_first.
+
+Theorem C10_call_dot_second : forall ev vs sc fn f args,
+  assoc String.eqb fn vs = None -> is_dot_func fn = Some f -> eval_call ev vs sc fn args = call_dot ev sc f args.
+Proof. exact call_dot_second. Qed.
+Print Assumptions C10_call_dot_second.
+
+Theorem C10_call_helper_last : forall ev vs sc fn args,
+  assoc String.eqb fn vs = None -> is_dot_func fn = None -> eval_call ev vs sc fn args = call_go_func ev sc fn args.
+Proof. exact call_helper_last. Qed.
+Print Assumptions C10_call_helper_last.
+
+(* the same view on the same argument values: by call = by EvaluateView (value), caller's scope as the arguments left it *)
+Theorem C10_call_equals_evaluate_view : forall n vs sc fn args vw avs sc1,
+  assoc String.eqb fn vs = Some vw -> List.length (v_params vw) = List.length args ->
+  eval_seq (eval n vs) args sc = Ok (avs, sc1) ->
+  eval (S n) vs sc (ECall fn args) =
+  ('(r, _) <- evaluate_view n vs fn (bind_params (v_params vw) avs []) ;; Ok (r, sc1)).
+Proof. exact call_equals_evaluate_view. Qed.
+Print Assumptions C10_call_equals_evaluate_view.
+
+Theorem C10_view_call_scope : forall ev sc vw args v sc',
+  view_call ev sc vw args = Ok (v, sc') ->
+  (List.length (v_params vw) <> List.length args /\ sc' = sc /\ v = VNil) \/
+  (exists avs, eval_seq ev args sc = Ok (avs, sc')).
+Proof. exact view_call_scope. Qed.
+Print Assumptions C10_view_call_scope.
+
+(* the helper table: unknown name, wrong number of arguments, an argument of another type than the table states: nil *)
+Theorem C10_go_func_nil : forall fn avs,
+  (assoc String.eqb fn go_func_map = None -> go_func fn avs = Ok VNil) /\
+  (forall impl ts t, assoc String.eqb fn go_func_map = Some (impl, ts, t) ->
+     (List.length avs <> List.length ts -> go_func fn avs = Ok VNil) /\
+     (forall i v ti, List.length avs = List.length ts -> nth_error avs i = Some v -> nth_error ts i = Some ti ->
+        expected v ti = false -> go_func fn avs = Ok VNil)).
+Proof.
+  exact (fun fn avs => conj (go_func_unknown_name fn avs)
+    (fun impl ts t H => conj (go_func_wrong_arity fn avs impl ts t H)
+       (fun i v ti L Ha Ht E => go_func_mistyped_argument fn avs impl ts t i v ti H L Ha Ht E))).
+Qed.
+Print Assumptions C10_go_func_nil.
+
+Theorem C10_helper_contains_prefix : forall s x,
+  (contains s x = true <-> exists a b, s = (a ++ x ++ b)%string) /\ (has_prefix s x = true <-> exists r, s = (x ++ r)%string).
+Proof. exact (fun s x => conj (contains_spec s x) (has_prefix_spec s x)). Qed.
+Print Assumptions C10_helper_contains_prefix.
+
+Theorem C10_helper_list_result : forall l, from_reflect (HL l) = Ok (VList (map VStr l)).
+Proof. exact helper_list_result. Qed.
+Print Assumptions C10_helper_list_result.
+
+(* ---- where over a map (whereMap), table holes, module (deepen round 3) ---- *)
+Theorem C10_where_map_filters : forall ev sc m sv rhs v sc',
+  apply_efun ev G_whereMap sc (VMap m) sv rhs = Ok (v, sc') ->
+  exists rs, iter_trace ev sv rhs (map pair_of m) sc rs sc' /\ v = VMap (pairs_to_map (select (map pair_of m) rs)).
+Proof. exact where_map_filters. Qed.
+Print Assumptions C10_where_map_filters.
+
+Theorem C10_where_map_is_submap : forall ev sc m sv rhs v sc',
+  key_sorted m -> apply_efun ev G_whereMap sc (VMap m) sv rhs = Ok (v, sc') ->
+  exists rs, iter_trace ev sv rhs (map pair_of m) sc rs sc' /\ v = VMap (select_entries m rs).
+Proof. exact where_map_is_submap. Qed.
+Print Assumptions C10_where_map_is_submap.
+
+Theorem C10_table_holes_panic : forall ev vs sc,
+  (forall op arg v sc1, assoc unop_eqb op unary_functions = None -> ev sc arg = Ok (v, sc1) -> step ev vs sc (EUn op arg) = Panic) /\
+  (forall op l r sv, assoc binop_eqb op strategy_table = None -> step ev vs sc (EBin op l r sv) = Panic).
+Proof. exact (fun ev vs sc => conj (unary_hole_panics ev vs sc) (binary_hole_panics ev vs sc)). Qed.
+Print Assumptions C10_table_holes_panic.
+
+Theorem C10_module_not_written : eval_writes_view_type = false.
+Proof. exact module_not_written. Qed.
+Print Assumptions C10_module_not_written.
+
+(* ---- purity as repeatability: an expression without a `let` of its own (callees may have any) leaves the scope as a
+        map as it found it, and a second evaluation gives the same value - nested transforms, recursive views, a view
+        called twice with the same arguments ---- *)
+Theorem C10_eval_let_free_scope : forall fuel vs sc e v sc',
+  eval fuel vs sc e = Ok (v, sc') -> lets e = [] -> sget implied_result sc = None -> forall x, sget x sc' = sget x sc.
+Proof. exact eval_let_free_scope. Qed.
+Print Assumptions C10_eval_let_free_scope.
+
+Theorem C10_call_twice : forall fuel vs sc fn args v sc',
+  eval fuel vs sc (ECall fn args) = Ok (v, sc') -> lets_list args = [] -> sget implied_result sc = None ->
+  exists sc'', eval fuel vs sc' (ECall fn args) = Ok (v, sc'') /\ (forall x, sget x sc'' = sget x sc).
+Proof. exact call_twice. Qed.
+Print Assumptions C10_call_twice.
